@@ -17,7 +17,8 @@ DESIGN_REF = "DESIGN.md §5 C11"
 ASSUMPTIONS = ["paths are well formed: absolute, non-empty segments; the root path '/' as a kept path is outside the statement",
                "cycle / nested-eval rejection is checked end to end on the real code (the analysis pass is not yet part of the Lean model)"]
 
-SEGS = ["f", "g", "fg", "x"]
+# "f.b", "f-" and "f " extend "f" with a character that sorts BELOW the separator "/", "fg" with one above it
+SEGS = ["f", "g", "fg", "x", "f.b", "f-", "f "]
 
 
 def all_paths(maxdepth):
@@ -44,13 +45,14 @@ def run(ctx):
     from dds.structures import DDSException, DDSErrorCode
     thorough = ctx["tier"] == "thorough"
     # ---------------- unit level ----------------
-    P = all_paths(2) + [["f", "g", "x"], ["f", "g", "fg"], ["fg", "f", "g"], ["f", "f", "f"], ["x", "g", "f"]]
+    P = all_paths(2) + [["f", "g", "x"], ["f", "g", "fg"], ["fg", "f", "g"], ["f", "f", "f"], ["x", "g", "f"], ["f", "f.b", "g"], ["f.b", "g", "f"]]
     lists = []
     for n in (1, 2, 3):
         if n < 3 or thorough:
             lists += [list(t) for t in itertools.permutations(P, n)] if n < 3 else []
         if n == 3:
-            small = P[:12] + P[20:25]
+            small = [["f"], ["g"], ["f.b"], ["f-"], ["fg"], ["f", "g"], ["f", "f.b"], ["f.b", "g"], ["f", "x"], ["x"], ["x", "f"], ["f ", "g"],
+                     ["f", "g", "x"], ["f.b", "f"], ["g", "f"], ["f", "fg"], ["fg", "f"]]
             lists += [list(t) for t in itertools.permutations(small, 3)]
     for _ in range(20000 if thorough else 3000):
         n = rng.choice([3, 4, 4, 5, 6])
@@ -132,7 +134,8 @@ def run(ctx):
         # overlapping paths: sets of 2..3 paths, all orders, three placements
         pathsets = [[["f"], ["f", "g"]], [["f"], ["x"], ["f", "g"]], [["f", "g"], ["x"], ["f"]], [["x"], ["f", "g", "x"], ["f", "g"]],
                     [["f"], ["fg"]], [["f", "g"], ["fg"], ["x"]], [["f"], ["x"], ["g", "f"]], [["f", "g"], ["f", "x"], ["g"]],
-                    [["f", "g"], ["x"], ["fg"], ["f"]], [["f", "g", "x"], ["x"], ["g"], ["f"]]]
+                    [["f", "g"], ["x"], ["fg"], ["f"]], [["f", "g", "x"], ["x"], ["g"], ["f"]],
+                    [["f"], ["f", "g"], ["f.b"]], [["f.b"], ["f", "g"], ["f"]], [["x", "f"], ["x", "f-"], ["x", "f", "g"]]]
         if thorough:
             pool = all_paths(2) + [["f", "g", "x"], ["f", "g", "fg"]]
             for _ in range(60):
